@@ -17,12 +17,20 @@ Clause → theorem (details in notes/C01.md):
   every prefix instant                 C01_prefix
   no division by 0 / sqrt of negative  C01_defined
   bounds, finish, Left                 C01_leaf_run, C01_finish, C01_bounds, C01_left_before_start
+  never Start()ed                      C01_implicit_start
+  succession of the step levels in time C01_chain, C01_step_chain  (one consumer; several consumers: C02)
+  int64 range of every integer          C01_int64_range
+  float64 rounding of the const profile C01_const_float (standard model of floating-point arithmetic, every `fl`);
+                                        line: C01_float_statement is open, C01_float_partial is its const half
 -/
 import Pandora.Proofs.C01
+import Pandora.Proofs.C01Chain
+import Pandora.Proofs.C01Float
 import Mathlib.Analysis.SpecialFunctions.Integrals.Basic
 
 namespace Pandora.Props.C01
 open Pandora Pandora.Gen.Schedule Pandora.Bridge.Schedule Pandora.Bridge.C01 Pandora.Proofs.LineMath Pandora.Proofs.C01
+open Pandora.Proofs.C01Chain Pandora.Proofs.C01Float
 
 /-! ### statement-level definitions -/
 
@@ -316,6 +324,211 @@ theorem C01_left_before_start (D n : ℤ) (f : ℤ → ℤ) (hn : 0 ≤ n) :
     doAtSchedule_Left (NewDoAtSchedule D n f) = Except.ok (n, NewDoAtSchedule D n f) := by
   rw [left_fresh]; simp [not_lt.mpr hn]
 
+
+/-- **never `Start()`ed**: a schedule whose first `Next()` comes without a `Start` takes the clock reading of that call as
+the profile's start — from then on it answers exactly like one that was started at that instant, so every theorem above
+applies with `t0 := now`. -/
+theorem C01_implicit_start (D n : ℤ) (f : ℤ → ℤ) (now : ℤ) (nows : List ℤ) :
+    drainFrom (NewDoAtSchedule D n f) (now :: nows) = startAndDrain D n f now (now :: nows) := by
+  have key : ∀ (l : List ℤ) (m0 : ℕ), drainFrom (startedSt D n f now m0) l =
+      (nexts D n f now m0 l).map Prod.fst := by
+    intro l
+    induction l with
+    | nil => intro m0; simp [drainFrom, nexts, Except.map]
+    | cons x rest ih =>
+        intro m0
+        simp only [drainFrom, nexts, next_started, ih (m0 + 1)]
+        cases nexts D n f now (m0 + 1) rest <;> simp [Except.map]
+  simp only [startAndDrain, start_fresh, drainFrom, next_fresh, next_started, key nows 1]
+  simp
+
+/-! ### the succession of levels in time (step profile) -/
+
+/-- `NewComposite` (regenerated table): no nested schedule → `NewOnce(0)`, one → that schedule itself; `compInit`, the
+initial state of the model of `Proofs/C01Chain`, is built on exactly these two rows. -/
+theorem C01_composite_small :
+    compositeSmall = [(0, "NewOnce(0)"), (1, "scheds[0]")] ∧
+    NewOnce 0 = Sched.doAt 0 0 (fun _ => 0) ∧
+    compInit [] = (NewDoAtSchedule 0 0 (fun _ => 0), []) ∧
+    (∀ l : Level, compInit [l] = (NewDoAtSchedule l.1 l.2.1 l.2.2, [])) :=
+  ⟨rfl, NewOnce_eq 0, rfl, fun _ => rfl⟩
+
+/-- **succession**: a profile made of the levels `l₀, l₁, …` (level i = (duration Dᵢ, count nᵢ, offsets fᵢ)), told its
+start `t0` and asked by one consumer, never panics and answers call number j with `ans j`, where
+* operation `k < nᵢ` of level `i` is call number (n₀ + … + nᵢ₋₁) + k and is scheduled at `t0 + (D₀ + … + Dᵢ₋₁) + fᵢ k`:
+  level i starts exactly where level i−1 finished, whether or not that level held any operation;
+* every call after the last operation is answered `(t0 + D₀ + … + D_last, false)`. -/
+theorem C01_chain (l0 : Level) (levels : List Level) (t0 : ℤ) (nows : List ℤ) :
+    ∃ ans : ℕ → ℤ × Bool,
+      chainRun (l0 :: levels) t0 nows = Except.ok ((List.range nows.length).map ans) ∧
+      (∀ (i : ℕ) (hi : i < (l0 :: levels).length) (k : ℕ), k < ((l0 :: levels)[i]).2.1.toNat →
+          ans (opsBefore (l0 :: levels) i + k) =
+            (t0 + durBefore (l0 :: levels) i + ((l0 :: levels)[i]).2.2 k, true)) ∧
+      (∀ j : ℕ, totalOps (l0 :: levels) ≤ j → ans j = (t0 + totalDur (l0 :: levels), false)) := by
+  refine ⟨chainAnswer t0 l0.1 l0.2.1 l0.2.2 0 levels, ?_, ?_, ?_⟩
+  · have := compDrain_eq nows levels t0 l0.1 l0.2.1 l0.2.2 0
+    simp only [Nat.cast_zero] at this
+    simp only [chainRun, compInit, compStart, fresh, start_fresh]
+    simpa [fresh] using this
+  · intro i hi k hk
+    exact chainAnswer_token levels l0 t0 i hi k hk
+  · intro j hj
+    have := chainAnswer_finish levels t0 l0.1 l0.2.1 l0.2.2 0 j (by simpa [totalOps] using hj)
+    rw [this]
+    simp only [totalDur]
+    congr 1; ring
+
+/-- the levels of a step profile, each the leaf that `C01_const` describes -/
+noncomputable def stepLevels (f t : ℝ) (s D : ℤ) : List Level :=
+  (Go.loopLE f t (s : ℝ)).map fun r => (D, Go.f2i (r * secs D), fun i => Go.f2i ((i : ℝ) * (1000000000 / r)))
+
+/-- **step = succession of one const profile per level, in time**: for every accepted `(from, to, step, duration)` with
+`from ≠ to` the constructor returns the composite of the level leaves; started at `t0`, operation `k` of level `i` (rate
+`from + i·step`) is scheduled at `t0 + i·duration + ⌊k/rateᵢ·10⁹⌋` and the exhausted profile reports
+`t0 + (number of levels)·duration`; with no level at all (`from > to`) it reports `t0`. -/
+theorem C01_step_chain (f t : ℝ) (s D : ℤ) (h : StepConfig_valid f t s D) (hne : f ≠ t) (t0 : ℤ) (nows : List ℤ) :
+    NewStepConf f t s D = Sched.composite ((stepLevels f t s D).map fun l => Sched.doAt l.1 l.2.1 l.2.2) ∧
+    ∃ ans : ℕ → ℤ × Bool,
+      chainRun (stepLevels f t s D) t0 nows = Except.ok ((List.range nows.length).map ans) ∧
+      (∀ (i : ℕ) (hi : i < (stepLevels f t s D).length) (k : ℕ), k < ((stepLevels f t s D)[i]).2.1.toNat →
+          ans (opsBefore (stepLevels f t s D) i + k) =
+            (t0 + (i : ℤ) * D + ((stepLevels f t s D)[i]).2.2 k, true)) ∧
+      (∀ j : ℕ, totalOps (stepLevels f t s D) ≤ j → ans j = (t0 + ((stepLevels f t s D).length : ℤ) * D, false)) := by
+  obtain ⟨hf, _, hs, hD⟩ := (StepConfig_valid_iff f t s D).mp h
+  have hallD : ∀ l ∈ stepLevels f t s D, l.1 = D := by
+    intro l hl
+    unfold stepLevels at hl
+    rw [List.mem_map] at hl
+    obtain ⟨r, _, rfl⟩ := hl
+    rfl
+  constructor
+  · rw [(C01_step f t s D h).2.1 hne]
+    congr 1
+    unfold stepLevels
+    rw [List.map_map]
+    apply List.map_congr_left
+    intro r hr
+    have hr0 : 0 ≤ r := le_trans hf (loopLE_levels f t s hs r hr).1
+    simp only [Function.comp, NewConstConf]
+    exact NewConst_eq r D hr0
+  · cases hl : stepLevels f t s D with
+    | nil =>
+        refine ⟨fun _ => (t0, false), ?_, ?_, ?_⟩
+        · have key : ∀ (l : List ℤ) (m : ℕ), compDrain (startedSt 0 0 (fun _ => 0) t0 m) [] l =
+              Except.ok (List.replicate l.length (t0, false)) := by
+            intro l
+            induction l with
+            | nil => intro m; simp [compDrain]
+            | cons x rest ih =>
+                intro m
+                simp only [compDrain, compNext, next_started, ih (m + 1)]
+                simp [List.replicate_succ]
+          simp only [chainRun, compInit, compStart, start_fresh]
+          rw [key nows 0]
+          simp
+        · intro i hi; simp at hi
+        · intro j _; simp
+    | cons l0 levels =>
+        rw [hl] at hallD
+        obtain ⟨ans, hrun, htok, hfin⟩ := C01_chain l0 levels t0 nows
+        refine ⟨ans, hrun, ?_, ?_⟩
+        · intro i hi k hk
+          rw [htok i hi k hk, durBefore_const (l0 :: levels) D hallD i (by omega)]
+        · intro j hj
+          rw [hfin j hj, totalDur_const (l0 :: levels) D hallD]
+
+/-! ### integer ranges -/
+
+/-- **every integer the constructors compute fits an int64** (the theorems read int64/Duration as ℤ): for an accepted line
+or const (= flat line) configuration whose integral stays below 2⁶³ operations, the count is in [0, 2⁶³) and every offset
+`at k`, k < count, is in [0, duration] ⊆ [0, 2⁶³) — a `time.Duration` is an int64 to begin with. (A profile of 2⁶³ or
+more operations is outside the theorems and skipped by the harness.) -/
+theorem C01_int64_range (f t : ℝ) (D : ℤ) (h : LineConfig_valid f t D) (hD : D < 2 ^ 63)
+    (htot : lineCum f t D (secs D) < 2 ^ 63) :
+    ∃ (n : ℤ) (at_ : ℤ → ℤ), NewLineConf f t D = Sched.doAt D n at_ ∧ 0 ≤ n ∧ n < 2 ^ 63 ∧
+      ∀ k : ℤ, 0 ≤ k → k < n → 0 ≤ at_ k ∧ at_ k < 2 ^ 63 := by
+  obtain ⟨hf, ht, hD1⟩ := (LineConfig_valid_iff f t D).mp h
+  obtain ⟨⟨n, at_, hnew, hn, hk⟩, htotal⟩ := C01_line f t D h
+  have hs := secs_pos' (D := D) (by omega)
+  have h0 : 0 ≤ lineCum f t D (secs D) := by rw [htotal]; positivity
+  refine ⟨n, at_, hnew, ?_, ?_, ?_⟩
+  · rw [hn]; exact Int.floor_nonneg.mpr h0
+  · rw [hn]
+    have : (⌊lineCum f t D (secs D)⌋ : ℝ) < (2 : ℝ) ^ 63 := lt_of_le_of_lt (Int.floor_le _) htot
+    exact_mod_cast this
+  · intro k hk0 hkn
+    obtain ⟨x, _, _, h1, h2⟩ := hk k hk0 hkn
+    exact ⟨h1, by omega⟩
+
+/-! ### float64 rounding of the const profile -/
+
+/-- **the float64 gap of the const profile, proved**: let `fl` be ANY rounding function with relative error ≤ u ≤ 1/16
+(IEEE-754 binary64 round-to-nearest without under/overflow: u = 2⁻⁵³). The regenerated float64 reading of `NewConst`
+(every float operation of const.go wrapped in `fl`) returns a leaf of the configured length whose
+* count ñ satisfies ⌊(1 − 4u)·ops·D⌋ ≤ ñ ≤ ⌊(1 + 4u)·ops·D⌋ (so ñ = ⌊∫rate⌋ unless the integral is within 4u·∫rate of an
+  integer);
+* operation `i ≥ 0` is at an offset `t ≥ 0` with ∫₀ᵗ rate ≤ i + 4u·i and ∫₀ᵗ⁺¹ rate ≥ i − 4u·i — the acceptance test of the
+  executable Spec (whose δ = 2⁻⁴⁶·(i + 1 + ops·D) is 32 times wider for u = 2⁻⁵³);
+* and, when 9u·ops·D ≤ 1, no operation `i < ñ` lies after the end of the profile. -/
+theorem C01_const_float (u : ℝ) (fl : ℝ → ℝ) (hfl : Rounding u fl) (ops : ℝ) (D : ℤ) (h : ConstConfig_valid ops D) :
+    ∃ (n : ℤ) (at_ : ℤ → ℤ), NewConst_fl fl ops D = Sched.doAt D n at_ ∧
+      ⌊(1 - 4 * u) * constCum ops (secs D)⌋ ≤ n ∧ n ≤ ⌊(1 + 4 * u) * constCum ops (secs D)⌋ ∧
+      (0 < ops → ∀ i : ℤ, 0 ≤ i →
+        0 ≤ at_ i ∧
+        constCum ops ((at_ i : ℝ) / 1000000000) ≤ (i : ℝ) + 4 * u * (i : ℝ) ∧
+        (i : ℝ) - 4 * u * (i : ℝ) ≤ constCum ops (((at_ i : ℝ) + 1) / 1000000000) ∧
+        (9 * u * constCum ops (secs D) ≤ 1 → i < n → at_ i ≤ D)) := by
+  obtain ⟨hops, hD⟩ := (ConstConfig_valid_iff ops D).mp h
+  have hD0 : 0 ≤ D := by omega
+  refine ⟨_, _, NewConst_fl_eq fl ops D hops, ?_, ?_, ?_⟩
+  · exact (const_count_ok hfl hops hD0).1
+  · exact (const_count_ok hfl hops hD0).2
+  · intro hpos i hi
+    obtain ⟨h1, h2, h3⟩ := const_token_ok hfl hpos hi
+    refine ⟨h1, h2, h3, ?_⟩
+    intro hsmall hin
+    exact const_token_le_D hfl hpos hD0 hsmall hi hin
+
+/-- the same claim for const AND line: every accepted configuration, every rounding function, the Spec's tolerance
+δ(i) = 2⁻⁴⁶·(i + 1 + max(from,to)·D) in count space. Not proved for `from ≠ to` (the conjugate square-root form; derivation
+on paper in notes/C01.md, bound 16u·(i + max·x)); the sampling tie measures it on every run. -/
+def C01_float_statement : Prop :=
+  ∀ (fl : ℝ → ℝ), Rounding (1 / 2 ^ 53) fl → ∀ (f t : ℝ) (D : ℤ), LineConfig_valid f t D →
+    ∃ (n : ℤ) (at_ : ℤ → ℤ), NewLine_fl fl f t D = Sched.doAt D n at_ ∧
+      ∀ i : ℤ, 0 ≤ i → i < n → (i : ℝ) < lineCum f t D (secs D) →
+        lineCum f t D ((at_ i : ℝ) / 1000000000) ≤ (i : ℝ) + ((i : ℝ) + 1 + max f t * secs D) / 2 ^ 46 ∧
+        (i : ℝ) - ((i : ℝ) + 1 + max f t * secs D) / 2 ^ 46 ≤ lineCum f t D (((at_ i : ℝ) + 1) / 1000000000)
+
+/-- the flat half (`from = to`, which is the const profile) of `C01_float_statement` -/
+theorem C01_float_partial (fl : ℝ → ℝ) (hfl : Rounding (1 / 2 ^ 53) fl) (f : ℝ) (D : ℤ) (h : LineConfig_valid f f D) :
+    ∃ (n : ℤ) (at_ : ℤ → ℤ), NewLine_fl fl f f D = Sched.doAt D n at_ ∧
+      ∀ i : ℤ, 0 ≤ i → i < n → (i : ℝ) < lineCum f f D (secs D) →
+        lineCum f f D ((at_ i : ℝ) / 1000000000) ≤ (i : ℝ) + ((i : ℝ) + 1 + max f f * secs D) / 2 ^ 46 ∧
+        (i : ℝ) - ((i : ℝ) + 1 + max f f * secs D) / 2 ^ 46 ≤ lineCum f f D (((at_ i : ℝ) + 1) / 1000000000) := by
+  obtain ⟨hf, _, hD⟩ := (LineConfig_valid_iff f f D).mp h
+  have hs := secs_pos' (D := D) (by omega)
+  obtain ⟨n, at_, hnew, _, _, htok⟩ :=
+    C01_const_float (1 / 2 ^ 53) fl hfl f D ((ConstConfig_valid_iff f D).mpr ⟨hf, hD⟩)
+  have hflat : NewLine_fl fl f f D = NewConst_fl fl f D := by unfold NewLine_fl; schedule_aux_unfold; simp
+  have hc : lineCum f f D = constCum f := by funext x; unfold lineCum constCum; simp
+  refine ⟨n, at_, by rw [hflat, hnew], ?_⟩
+  intro i hi _ hlt
+  have hi' : (0:ℝ) ≤ (i : ℝ) := by exact_mod_cast hi
+  have hpos : 0 < f := by
+    rcases hf.lt_or_eq with h1 | h1
+    · exact h1
+    · rw [hc, ← h1] at hlt; unfold constCum at hlt; simp at hlt; linarith
+  obtain ⟨_, h2, h3, _⟩ := htok hpos i hi
+  have hm : 0 ≤ max f f * secs D := by rw [max_self]; positivity
+  -- 4·2⁻⁵³·i ≤ 2⁻⁴⁶·(i + 1 + …)
+  have hδ : 4 * (1 / 2 ^ 53 : ℝ) * (i : ℝ) ≤ ((i : ℝ) + 1 + max f f * secs D) / 2 ^ 46 := by
+    rw [le_div_iff₀ (by positivity : (0:ℝ) < 2 ^ 46)]
+    have e : 4 * (1 / 2 ^ 53 : ℝ) * (i : ℝ) * 2 ^ 46 = (i : ℝ) / 32 := by ring
+    rw [e]
+    linarith
+  rw [hc]
+  exact ⟨by linarith, by linarith⟩
+
 /-! ### non-vacuity: every hypothesis above is met by concrete, non-trivial inputs -/
 
 example : ConstConfig_valid 7.5 1000000 := by unfold ConstConfig_valid; norm_num
@@ -344,5 +557,31 @@ example : ∃ rs, startAndDrain 1000 2 (fun i => i * 10) 5 [0, 0, 0] = Except.ok
 example : Realises (NewConstConf 7.5 1000000) (constCum 7.5) 1000000 :=
   C01_const _ _ (by unfold ConstConfig_valid; norm_num)
 example : (0:ℤ) ≤ 7 := by norm_num
+-- C01_chain / C01_step_chain: three levels of which the middle one holds no operation; a step profile with 4 levels
+example : chainRun [((10:ℤ), (2:ℤ), fun k => 3 * k), (10, 0, fun _ => 0), (10, 1, fun _ => 7)] 100 [0, 0, 0, 0, 0] =
+    Except.ok [(100, true), (103, true), (127, true), (130, false), (130, false)] := by
+  obtain ⟨ans, hrun, htok, hfin⟩ :=
+    C01_chain ((10:ℤ), (2:ℤ), fun k => 3 * k) [(10, 0, fun _ => 0), (10, 1, fun _ => 7)] 100 [0, 0, 0, 0, 0]
+  rw [hrun]
+  have a0 := htok 0 (by simp) 0 (by simp)
+  have a1 := htok 0 (by simp) 1 (by simp)
+  have a2 := htok 2 (by simp) 0 (by simp)
+  have a3 := hfin 3 (by simp [totalOps])
+  have a4 := hfin 4 (by simp [totalOps])
+  simp [opsBefore, durBefore, totalOps, totalDur] at a0 a1 a2 a3 a4
+  simp [List.range_succ, a0, a1, a2, a3, a4]
+example : StepConfig_valid 1 10 3 1500000000 ∧ (1:ℝ) ≠ 10 ∧ (stepLevels 1 10 3 1500000000).length = 4 := by
+  refine ⟨by unfold StepConfig_valid; norm_num, by norm_num, ?_⟩
+  have : ⌊((10:ℝ) - 1) / 3⌋₊ = 3 := by rw [Nat.floor_eq_iff (by norm_num)]; norm_num
+  simp [stepLevels, Go.loopLE, this]
+-- C01_int64_range, C01_const_float, C01_float_partial: the rounding model is inhabited (exact arithmetic, and a rounding
+-- that is always 1/16 too high), the configurations are the ones above
+example : LineConfig_valid 0 10 1500000000 ∧ (1500000000:ℤ) < 2 ^ 63 ∧
+    lineCum 0 10 1500000000 (secs 1500000000) < 2 ^ 63 := by
+  refine ⟨by unfold LineConfig_valid; norm_num, by norm_num, ?_⟩
+  rw [(C01_line 0 10 1500000000 (by unfold LineConfig_valid; norm_num)).2]; unfold secs; norm_num
+example : Rounding 0 (fun x => x) ∧ Rounding (1 / 16) (fun x => x * (1 + 1 / 16)) := ⟨rounding_id, rounding_up⟩
+example : ∃ fl, Rounding (1 / 2 ^ 53) fl := ⟨fun x => x, by norm_num, by norm_num, by intro x; simp⟩
+example : (9:ℝ) * (1 / 16) * constCum 1 (secs 1000000000) ≤ 1 := by unfold constCum secs; norm_num
 
 end Pandora.Props.C01
